@@ -26,7 +26,11 @@ func zzCells(name string, nrows, ncols, cellLen int) [][]string {
 	for i := range in {
 		in[i] = make([]string, ncols)
 		for j := range in[i] {
-			in[i][j] = zzverif.String(name, cellLen)
+			l := cellLen
+			if zzverif.Param("emptyCells", 0) == 1 && zzverif.Bool("emptyCell") {
+				l = 0 // any cell may be empty (the explorer decides which)
+			}
+			in[i][j] = zzverif.String(name, l)
 		}
 	}
 	return in
